@@ -112,7 +112,15 @@ class KnownFindings(object):
             self.fixed.append(entry)
 
     def lookup(self, prop, key):
-        return self.known.get((prop, key))
+        """exact key, or an entry whose key ends in '*' and is a prefix of `key` (one defect showing in a family of
+        classes, e.g. one CSP directive class per directive name)"""
+        entry = self.known.get((prop, key))
+        if entry is not None:
+            return entry
+        for (p, k), e in self.known.items():
+            if p == prop and k.endswith('*') and key.startswith(k[:-1]):
+                return e
+        return None
 
 
 class Run(object):
